@@ -80,6 +80,10 @@ Graphs == {"none", "chain3", "diamond", "self-loop", "two-cycle", "missing"}
 FetchKinds == {"content", "none", "nonepair", "nothing", "bytes-bom", "bytes-charset"}
 ConfigRows == {[kind |-> "config", entry |-> e, graph |-> g, fetch |-> f, text |-> t] :
                   e \in Entries, g \in Graphs, f \in FetchKinds, t \in {"plain", "malformed", "truncated-charset", "bom", "charset-rule", "empty"}}
+              \* byte strings with every BOM; the first character after it has a zero low byte and a zero high byte in turn
+              \cup {[kind |-> "config", entry |-> "bytes", graph |-> "none", fetch |-> "content", text |-> t] :
+                       t \in {"bom-utf-16-le", "bom-utf-16-be", "bom-utf-32-le", "bom-utf-32-be", "bom-utf-16-le-lowzero", "bom-utf-16-be-lowzero",
+                              "bom-utf-32-le-lowzero", "bom-utf-8-lowzero"}}
 Rows == TokRows \cup NestRows \cup ConfigRows
 Init == row \in Rows
 Next == UNCHANGED row
